@@ -51,7 +51,7 @@ Definition goal_ok (r : run) : bool :=
   match last_state (r_path r) with
   | None => false
   | Some l =>
-      if r_approx r then (r_status r =? ST_APPROXIMATE) && negb (p_goal l) && (Z.abs (r_diff r - p_gdist l) <=? r_tol r)
+      if r_approx r then (r_status r =? ST_APPROXIMATE) && (Z.abs (r_diff r - p_gdist l) <=? r_tol r)
       else (r_status r =? ST_EXACT) && p_goal l
   end.
 Definition stretch_limit : Z := 16.   (* twice the resolution length, in eighths *)
